@@ -50,10 +50,10 @@ CHECKS = {
         note="Assumed contract: _get_token_last_idx returns >= -1 and is deterministic (checked at run time over the bounded domain). E1's Python-semantics model (DESIGN §3)."),
     "C06": dict(
         category="other", design_ref="DESIGN.md §5 C06",
-        technique="contract-based deductive verification of param2json_schema_property (E1: record with presence bits, Seq view of `required`, z3) for the required/Optional lemma; run-time contracts over IR(n) with the 2020-12 meta-schema as oracle for the rest",
-        text="PROVED for all inputs: param2json_schema_property appends the name to `required` exactly when the type string does not start with 'Optional[', leaves `required` otherwise untouched (frame), turns a truthy doc into the description and never leaves a `typ` key. "
+        technique="contract-based deductive verification of param2json_schema_property (E1: record with presence bits, Seq view of `required`, z3), lifted to json_schema() for parameter lists of any length by a fold lemma (Lean 4 kernel) under fold-shape side conditions checked on the real ast; run-time contracts over IR(n) with the 2020-12 meta-schema as oracle for the rest",
+        text="PROVED for all inputs: param2json_schema_property appends the name to `required` exactly when the type string does not start with 'Optional[', leaves `required` otherwise untouched (frame), turns a truthy doc into the description and never leaves a `typ` key; hence (Lean fold lemma required_is_filter + side conditions S1-S4 on json_schema(): fresh empty list, handed over only as the partial's keyword, mapped once over params.items() into dict(), same object emitted) the `required` list of the emitted schema is exactly the non-Optional parameter names in declaration order, for any number of parameters. "
              "BOUNDED only: the whole-document clauses (required list of json_schema() in order, meta-schema validity, defaults validate against their property schema, Literal pattern accepts exactly the members, serialisable, parse-back equality) over the JSON-representable slice of IR(n).",
-        note="The quantified lemma for json_schema()'s loop over params (required == filter in order) is not proved, only checked in the bounded part. jsonschema's Draft202012Validator is the oracle for validity."),
+        note="Assumed: dict(map(f, xs)) calls f once per item in order (CPython); the composition callee contract + fold lemma + S1-S4 is a paper step (each part machine-checked). jsonschema's Draft202012Validator is the oracle for validity."),
     "C16": dict(
         category="other", design_ref="DESIGN.md §5 C16",
         technique="contract-based deductive verification of the OpenAPI emitter core (E1 with a symbolic-key map / JSON-tree view, z3 strings): closure of $refs, verbs vs CRUD, declared path parameter, write frame; whole-document oracle over generated models for the bulk pipeline",
